@@ -234,7 +234,7 @@ def request_layout(I, e):
     return None
 
 
-def check_ccf_stores(ctx, entry, I, res):
+def check_ccf_stores(ctx, entry, I, res, rule='R7'):
     """every store to Bump.current_chunk_footer stores a footer created by the acquirer in this
     very call (or the EMPTY sentinel)"""
     aggs = [arena.footer_agg(e)[0] for e in res.events if e.kind == 'store' and arena.footer_agg(e)]
@@ -247,9 +247,9 @@ def check_ccf_stores(ctx, entry, I, res):
         fn = arena.short(arena.innermost(e))
         okv = any(a in subterms(e.val) for a in aggs) or (e.val[0] == 'addr' and prover.root_static(e.val[1]) == 'EMPTY_CHUNK')
         if okv:
-            ctx.ok('R7', '%s store(current_chunk_footer) via %s' % (fn, entry), 'stored value contains the address of the footer written by the acquirer in the same call')
+            ctx.ok(rule, '%s store(current_chunk_footer) via %s' % (fn, entry), 'stored value contains the address of the footer written by the acquirer in the same call')
         else:
-            ctx.violation('R7', fn, 'store(Bump.current_chunk_footer)', 'current_chunk_footer is set to %s, which is not a footer created in this call' % show(e.val)[:160], e.span)
+            ctx.violation(rule, fn, 'store(Bump.current_chunk_footer)', 'current_chunk_footer is set to %s, which is not a footer created in this call' % show(e.val)[:160], e.span)
 
 
 def check_fast_path_failure_atomicity(ctx, A):
